@@ -83,7 +83,11 @@ def build_engine(engine, cfg):
     env["CARGO_TARGET_DIR"] = tdir
     for k, v in e.get("env", {}).items():
         env[k] = v
-    cmd = ["cargo", "build", "--release", "--offline"] + feats
+    profile = "release"
+    for f in feats:
+        if f.startswith("--profile="):
+            profile = f.split("=", 1)[1]
+    cmd = ["cargo", "build", "--offline"] + ([] if profile != "release" else ["--release"]) + feats
     t0 = time.time()
     if e.get("pre"):
         # e.g. the schedule explorer's instrumented copy of the crate, regenerated from /repo's working tree
@@ -105,7 +109,7 @@ def build_engine(engine, cfg):
     if rc != 0:
         raise Machinery("build of %s/%s failed:\n%s" % (engine, cfg, out[-6000:]))
     log("built %s/%s in %.1fs" % (engine, cfg, time.time() - t0))
-    return os.path.join(tdir, "release", e["bin"])
+    return os.path.join(tdir, profile, e["bin"])
 
 
 def build_shim(name):
